@@ -130,6 +130,8 @@ fn main() {
                     "table-3" => tabledrv::run_table::<tabledrv::T3>(&body, &mut out),
                     "table-6" => tabledrv::run_table::<tabledrv::T6>(&body, &mut out),
                     "table-12" => tabledrv::run_table::<tabledrv::T12>(&body, &mut out),
+                    "table-17" => tabledrv::run_table::<tabledrv::T17>(&body, &mut out),
+                    "table-18" => tabledrv::run_table::<tabledrv::T18>(&body, &mut out),
                     "table-zst" => tabledrv::run_table::<tabledrv::Tz>(&body, &mut out),
                     "table-zst64" => tabledrv::run_table::<tabledrv::Tz64>(&body, &mut out),
                     k => panic!("unknown kind {}", k),
